@@ -5,6 +5,7 @@ at joins (ite), loops are cut at their headers (assert invariant, havoc,
 assume invariant; assert invariant + decreases on back edges).  Every potential
 fault and every contract clause becomes a named obligation."""
 import re
+import os
 from .term import *
 from .values import *
 from . import ssa as S
@@ -715,7 +716,7 @@ class Exec(object):
             if self.small_arr(tid):
                 return ArrV(tid, [self.sa_load(st, tid, p, I(i)) for i in range(u['len'])], u['elem'])
             if u['len'] > 16:
-                raise Unsupported('whole-array load of %s' % tid)
+                return ArrRef(tid, p, st.copy())
             return ArrV(tid, [self.elem_load(st, u['elem'], p, I(i)) for i in range(u['len'])], u['elem'])
         raise Unsupported('obj_load kind %s' % k)
 
@@ -752,6 +753,23 @@ class Exec(object):
         elif k == 'struct':
             for f in self.struct_fields(tid):
                 self.field_store(st, tid, p, f['name'], f['type'], v.f[f['name']])
+        elif k == 'array' and isinstance(v, ArrRef):
+            # copy of a large array: the destination elements are havocked and stated equal, leaf by leaf, to the
+            # source elements of the state in which the value was read
+            u = self.U(tid)
+            e_ = u['elem']
+            n_ = I(u['len'])
+            if self.is_scalar(e_):
+                raise Unsupported('whole-array copy of scalars %s' % tid)
+            self.havoc_regions(st, [('objs', e_, p, ZERO, n_)], 'arrcopy')
+            from .speceval import SpecEval
+            ev_ = SpecEval(self, st, {}, None, 'array copy')
+            nq_ = self.ctx.counter.get('q:ac', 0)
+            self.ctx.counter['q:ac'] = nq_ + 1
+            kq_ = const('ac?%d' % nq_, INT)
+            newv_ = self.obj_load(st, e_, self.elemaddr(p, kq_))
+            oldv_ = self.obj_load(v.pre, e_, self.elemaddr(v.addr, kq_))
+            self.ctx.assume(forall([kq_], implies(and_(le(ZERO, kq_), lt(kq_, n_)), ev_.ident_eq(newv_, oldv_)), [self.elemaddr(p, kq_)]))
         elif k == 'array':
             u = self.U(tid)
             for i, e in enumerate(v.elems):
